@@ -28,6 +28,7 @@ RULE = (
     "on the returned values, and agree with vlib/model_validio. Non-trivial: a case with a Decimal or DateTime "
     "field or >= 1 rejected row; distinct by hash of (CID rows, table)."
     "CIDs may restrict the allowed characters; Text cells may span lines; check descriptions may have blanks at their edges."
+    "Percent texts; lengths no cell reaches (lower limits of 32767 and more)."
 )
 ASSUMPTIONS = [
     "rows have exactly one cell per field and a non-empty last cell (xlsx pads, ODS/XLSX cannot store trailing "
